@@ -263,6 +263,7 @@ table_case = st.fixed_dictionaries({
                        min_size=1, max_size=3),
     "n": st.one_of(st.integers(0, 12), st.integers(0, 200)),
     "nan_rate": st.sampled_from([0.0, 0.1, 0.5]),
+    "masked_rate": st.sampled_from([0.0, 0.0, 0.2, 0.5]),      # in-memory tables: fraction of rows with a masked coordinate cell
     "negate": st.booleans(),
     "cols": st.sampled_from([("ra", "dec"), ("RAJ2000", "DEJ2000"), ("lon", "lat")]),
     "route": st.sampled_from(["table", "table", "csv", "fits", "cli-csv"]),
@@ -311,6 +312,18 @@ def check_table(c):
     tab["name"] = np.array(["s%05d" % k for k in range(n)], dtype="U8") if n else np.zeros(0, dtype="U8")
     tab["flag"] = (np.arange(n) % 3).astype(np.int32)
     inside, amb = membership(pixset, d, ra, dec)
+    # masked cells (astropy MaskedColumn): the coordinate is undefined whatever number lies underneath, and most of the
+    # numbers underneath are inside the region here
+    mrow = np.zeros(n, dtype=bool)
+    if c.get("masked_rate") and c["route"] == "table" and n:
+        mrow = rng.random(n) < c["masked_rate"]
+        mwhich = rng.random(n) < 0.5
+        tab = Table(tab, masked=True)
+        tab[racol].mask = mrow & mwhich
+        tab[deccol].mask = mrow & ~mwhich
+        inside = inside & ~mrow
+        amb = amb & ~mrow
+        res.label("masked-coordinates")
     negate = c["negate"]
     keep_expected = inside if negate else ~inside
     d_tmp = None
